@@ -19,6 +19,23 @@ DISPATCH_NOTE = ('Modelled not verified: werkzeug Request/Response/redirect, Exc
                  '(C05 decides it); what executing a route yields is abstracted to an outcome (Model/Exec supplies it). ')
 
 CLAIMED = {
+ 'C05': dict(
+   text=('Theorems (Props/C05.v): the token-level matcher (Model/Match.v) is sound, complete and greedy w.r.t. a declarative '
+         'assignment of path segments to pattern elements (literal = equal segment; binding = 1 / 0-1 / 0+ / 1+ segments in '
+         'the lexeme class of its type, the class being the regular language of the regex REGENERATED from route.py, decided '
+         'by a derivative matcher proved correct); captures partition the segments; shapes of converted values; strict mode '
+         'demands exactly the pattern\'s slashes; in tolerant modes a route matches a path exactly as it matches '
+         'normalize_path(path) (function TRANSLATED from route.py) with the same bindings - partial: no slash run inside the '
+         'span of a */+ binding (known finding F3, witness C05_tolerant_slashes_refuted); sign-space integers do not convert; '
+         'leading-slash/double-slash/duplicate/unknown-type/unknown-operator patterns are InvalidPattern and accepted patterns '
+         'have none of these defects; operator tables regenerated and proved consistent with the regex quantifiers. Tie: '
+         'translator + exhaustive differential run: every string of length <= 4 (5 thorough) over an 11-symbol alphabet x '
+         'several hundred patterns x 3 slash modes against BoundRoute.match_path (values and types).'),
+   note=COMMON_NOTE + 'Modelled not verified: Python\'s re engine (the claim that the assembled regex behaves like the token-level '
+        'greedy matcher is validated exhaustively on short paths and by long random paths, not proved - DESIGN.md C05_regex_language '
+        'is pending), int()/float()/str() builtins, \\d restricted to ASCII digits, BINDING regex modelled for the quantifier\'s grammar only.',
+   technique='Coq proof (soundness/completeness/greediness of the matcher vs a declarative assignment relation; regex derivative correctness; string lemmas tying tokenise to the translated normalize_path) + translator + exhaustive small-scope differential check',
+   design='6/C05'),
  'C06': dict(
    text=('Theorems (Props/C06.v) over a Gallina transcription of Application.dispatch / DispatchState / the catch-all '
          'route / Route.__init__ method normalisation / match_method: for every routing table of any length, method, '
